@@ -29,6 +29,7 @@ type Cand struct {
 	Depth    int
 	Width    int
 	ReqDepth int
+	PageSize int    // listing page size of the in-memory store (0 = 100)
 	Oracle   string // "equals-ref" | "fail-closed"
 	What     string
 	Sig      string
@@ -39,7 +40,7 @@ func (c *Cand) replay() map[string]any {
 	cfg := c.Cfg.Resolve()
 	return map[string]any{"cfgref": c.Cfg, "config": cfg.Name, "opl": refsem.RenderOPL(cfg.NS), "strict": c.Cfg.Strict,
 		"tuples_in_row_order": tuplesStr(c.Tuples), "query": c.Query.String(), "bound": c.Bound, "choices": c.Choices,
-		"global_depth": c.Depth, "width": c.Width, "request_depth": c.ReqDepth, "cand": c}
+		"global_depth": c.Depth, "width": c.Width, "request_depth": c.ReqDepth, "page_size": c.PageSize, "cand": c}
 }
 
 // judge explores cand's scenario to its bound on world w and returns "" if every
@@ -53,7 +54,7 @@ func judge(w *World, c *Cand) (string, []int) {
 	e := &vsched.Explore{Bound: c.Bound}
 	var last CheckOut
 	e.Run(func(vc vsched.Config) *vsched.Execution {
-		last = w.RunCheck(rows, q, vc, RunOpt{ReqDepth: c.ReqDepth})
+		last = w.RunCheck(rows, q, vc, RunOpt{ReqDepth: c.ReqDepth, PageSize: c.PageSize})
 		return last.X
 	}, func(x *vsched.Execution) bool {
 		if x.Outcome != "ok" {
@@ -208,10 +209,10 @@ func TestC01(t *testing.T) {
 		leaves = []int{LIncA, LIncB, LTrvAP, LTrvAB, LPermQ}
 	}
 	var cov struct {
-		cases, judged, nontrivial, cut, outOfDomain, unconnected, allowed, denied         int
-		sExecs, sTrans, sStates, sScen, sHeavy                                            int
-		strictCases, maxThreads, sqlCases, sqlCalls, wideCases, chainCases, chainPrograms int
-		complete                                                                          bool
+		cases, judged, nontrivial, cut, outOfDomain, unconnected, allowed, denied                     int
+		sExecs, sTrans, sStates, sScen, sHeavy                                                        int
+		strictCases, maxThreads, sqlCases, sqlCalls, wideCases, chainCases, chainPrograms, pagedCases int
+		complete                                                                                      bool
 	}
 	cov.complete = true
 	var cands []*Cand
@@ -243,63 +244,73 @@ func TestC01(t *testing.T) {
 				orders = [][]int{nil, rev}
 			}
 		}
-		for _, ord := range orders {
-			rowsT := ts
-			if ord != nil {
-				rowsT = make([]refsem.Tuple, len(ts))
-				for i, j := range ord {
-					rowsT[i] = ts[j]
+		// listings are paged: with page size 1 every traverse over two rows of one relation needs a second page
+		pageSizes := []int{0}
+		if len(ts) >= 2 && cfg.Expr.usesTraverse() {
+			pageSizes = []int{0, 1}
+		}
+		for _, ps := range pageSizes {
+			for _, ord := range orders {
+				rowsT := ts
+				if ord != nil {
+					rowsT = make([]refsem.Tuple, len(ts))
+					for i, j := range ord {
+						rowsT[i] = ts[j]
+					}
 				}
-			}
-			// iterative deepening: an execution that was not cut at global depth d is, step for
-			// step, the execution at any larger depth, so the cheapest uncut run is the verdict
-			o := w.RunCheck(w.Rows(rowsT), w.Internal(q), vsched.Config{FastBase: true}, RunOpt{ReqDepth: 4})
-			// (an input whose dependency graph has a cycle through a rewrite edge is cut at every
-			// depth - the engine has no cycle detection there - so deepening it only burns time)
-			if o.Cut && !ref.RewriteCycle {
-				o = w.RunCheck(w.Rows(rowsT), w.Internal(q), vsched.Config{FastBase: true}, RunOpt{ReqDepth: 8})
-			}
-			if o.Cut && !ref.RewriteCycle && ev.Thorough() {
-				o = w.RunCheck(w.Rows(rowsT), w.Internal(q), vsched.Config{FastBase: true}, RunOpt{})
-			}
-			cov.judged++
-			if o.X.NThreads > cov.maxThreads {
-				cov.maxThreads = o.X.NThreads
-			}
-			if o.Cut {
-				cov.cut++
-				continue
-			}
-			if ref.Atoms >= 2 {
-				k := fmt.Sprintf("%s|%s|%s", cfg.Name, tuplesStr(rowsT), q)
-				if !distinct[k] {
-					distinct[k] = true
-					cov.nontrivial++
+				// iterative deepening: an execution that was not cut at global depth d is, step for
+				// step, the execution at any larger depth, so the cheapest uncut run is the verdict
+				o := w.RunCheck(w.Rows(rowsT), w.Internal(q), vsched.Config{FastBase: true}, RunOpt{ReqDepth: 4, PageSize: ps})
+				// (an input whose dependency graph has a cycle through a rewrite edge is cut at every
+				// depth - the engine has no cycle detection there - so deepening it only burns time)
+				if o.Cut && !ref.RewriteCycle {
+					o = w.RunCheck(w.Rows(rowsT), w.Internal(q), vsched.Config{FastBase: true}, RunOpt{ReqDepth: 8, PageSize: ps})
 				}
-			}
-			if ref.Allowed {
-				cov.allowed++
-			} else {
-				cov.denied++
-			}
-			bad := ""
-			sig := ""
-			switch {
-			case o.X.Outcome != "ok":
-				bad, sig = "abnormal execution: "+o.X.Outcome, "abnormal:"+o.X.Outcome
-			case o.Res.Err != nil:
-				bad, sig = "error without any fault: "+o.Res.Err.Error(), "error-without-fault"
-			case (o.Res.Membership == checkgroup.IsMember) != ref.Allowed:
-				bad = fmt.Sprintf("engine=%s reference allowed=%v", memb(o.Res), ref.Allowed)
+				if o.Cut && !ref.RewriteCycle && ev.Thorough() {
+					o = w.RunCheck(w.Rows(rowsT), w.Internal(q), vsched.Config{FastBase: true}, RunOpt{PageSize: ps})
+				}
+				if ps != 0 {
+					cov.pagedCases++
+				}
+				cov.judged++
+				if o.X.NThreads > cov.maxThreads {
+					cov.maxThreads = o.X.NThreads
+				}
+				if o.Cut {
+					cov.cut++
+					continue
+				}
+				if ref.Atoms >= 2 {
+					k := fmt.Sprintf("%s|%s|%s", cfg.Name, tuplesStr(rowsT), q)
+					if !distinct[k] {
+						distinct[k] = true
+						cov.nontrivial++
+					}
+				}
 				if ref.Allowed {
-					sig = "false-deny"
+					cov.allowed++
 				} else {
-					sig = "false-allow"
+					cov.denied++
 				}
-			}
-			if bad != "" && len(cands) < 300 {
-				cands = append(cands, &Cand{Cfg: cfg.Ref, Tuples: rowsT, Query: q, Bound: 0, Depth: w.Depth, Width: w.Width, ReqDepth: 8, Oracle: "equals-ref",
-					Sig: sig, What: fmt.Sprintf("%s on {%s | %s | q=%s} (base schedule)", bad, cfg.Name, tuplesStr(rowsT), q)})
+				bad := ""
+				sig := ""
+				switch {
+				case o.X.Outcome != "ok":
+					bad, sig = "abnormal execution: "+o.X.Outcome, "abnormal:"+o.X.Outcome
+				case o.Res.Err != nil:
+					bad, sig = "error without any fault: "+o.Res.Err.Error(), "error-without-fault"
+				case (o.Res.Membership == checkgroup.IsMember) != ref.Allowed:
+					bad = fmt.Sprintf("engine=%s reference allowed=%v", memb(o.Res), ref.Allowed)
+					if ref.Allowed {
+						sig = "false-deny"
+					} else {
+						sig = "false-allow"
+					}
+				}
+				if bad != "" && len(cands) < 300 {
+					cands = append(cands, &Cand{Cfg: cfg.Ref, Tuples: rowsT, Query: q, Bound: 0, Depth: w.Depth, Width: w.Width, ReqDepth: 8, PageSize: ps, Oracle: "equals-ref",
+						Sig: sig, What: fmt.Sprintf("%s on {%s | %s | q=%s} (base schedule, listing page size %d)", bad, cfg.Name, tuplesStr(rowsT), q, map[bool]int{true: 100, false: ps}[ps == 0])})
+				}
 			}
 		}
 	}
@@ -581,6 +592,7 @@ func TestC01(t *testing.T) {
 		"strict_mode_cases":               cov.strictCases,
 		"sql_backed_cases":                cov.sqlCases,
 		"sql_wide_node_cases":             cov.wideCases,
+		"input_cases_with_page_size_1":    cov.pagedCases,
 		"opl_text_chain_programs":         cov.chainPrograms,
 		"opl_text_chain_cases":            cov.chainCases,
 		"store_calls_cross_checked":       cov.sqlCalls,
